@@ -247,6 +247,26 @@ def _check_dir(ctx, case):
         victims = [n_ for n_, isf in listing if isf and any(n_ == k0 + "." + "".join(map(chr, e_)).lstrip(".")
                                                             if isinstance(e_, (list, tuple)) else n_ == k0 + "." + str(e_).lstrip(".")
                                                             for e_ in exts)]
+        if len(victims) == 1 and id(reg) in _writable and "added9" not in keys:
+            # … and a file that arrives later is there — also for a combination the registry was already added to, once
+            # it is added again
+            from moclo.registry.base import CombinedRegistry
+            comb = CombinedRegistry()
+            try:
+                comb << reg
+                w_ = _writable[id(reg)]
+                w_.writetext("/added9." + victims[0].rsplit(".", 1)[1], w_.readtext("/" + victims[0]))
+                comb << reg
+                missing = [where for where, ok_ in (("the registry", "added9" in reg and "added9" in list(reg)),
+                                                    ("the combination it was added to again", "added9" in comb and "added9" in list(comb)))
+                           if not ok_]
+                if missing:
+                    ctx.fail("directory registry: a plasmid file written into the directory later is not in {}".format(
+                        " nor in ".join(missing)), case)
+                ctx.note("file-added-behind-registry")
+            except Exception as e:  # noqa
+                ctx.fail("directory registry: adding a file behind a live registry and combining again raises {}".format(
+                    type(e).__name__), case)
         if len(victims) == 1:
             try:
                 reg[k0]
